@@ -249,6 +249,16 @@ def worker(ctx):
             else:
                 chosen = rng.sample(simple, rng.randint(1, len(simple))) if simple else ["X"]
             subsets = [chosen]
+            # -F must not change what --endian selects: for `little` and `big` the reference is the unfiltered output of the SAME --endian
+            endian = [None, "little", "big"][(case_id // 4) % 3]
+            if endian is not None:
+                res.count("filter_cases_with_explicit_endian")
+                dce, rce, see = run("c-all-" + endian, ["c", "-O", "--endian", endian])
+                if rce:
+                    res.violation("endian-refused", f"--endian {endian} refused: {see[-150:]}", wit)
+                    continue
+                c_all_e = read(dce, f"{base}_bp.c")
+                cf_all, c_all = c_functions(c_all_e), c_all_e
             # a function's text must not depend on which OTHER functions are generated: name a container without the messages it
             # contains, the contained one alone, and both (an encoder that calls or shares code with another message's encoder
             # would have to change when that one is filtered out)
@@ -267,7 +277,7 @@ def worker(ctx):
             for si, chosen in enumerate(subsets):
                 arg = (", " if rng.random() < 0.3 else ",").join(chosen)
                 want = {(k, c_type_name(m)) for m in msgs if m.name in chosen for k in ("Encode", "Decode")}
-                dcf, rc3, se3 = run(f"c-f{si}", ["c", "-O", "-F", arg])
+                dcf, rc3, se3 = run(f"c-f{si}", ["c", "-O", "-F", arg] + (["--endian", endian] if endian else []))
                 dgf, rc4, se4 = run(f"go-f{si}", ["go", "-O", "-F", arg])
                 w = {**wit, "filter": arg}
                 if rc3 or rc4:
@@ -316,5 +326,5 @@ if __name__ == "__main__":
         assumptions=["functions are delimited textually by the generator's own layout (signature line ... closing brace at column 0)"],
         required_counters=["cli_runs", "refusals_checked", "filter_cases_checked", "filter_functions_expected", "endian_triples_compared", "endian_bodies_compared",
                            "mode:refuse-extensible", "mode:refuse-args", "container_element_filter_pairs", "filtered_function_texts_compared", "cases_with_aligned_element_arrays",
-                           "filters_naming_a_short_name_shared_by_several_messages"],
+                           "filters_naming_a_short_name_shared_by_several_messages", "filter_cases_with_explicit_endian"],
     )
